@@ -5,6 +5,7 @@ import PorepyVerif.C12.Props
 #print axioms PorepyVerif.C12.tpfa_conservative
 #print axioms PorepyVerif.C12.tpfa_const_zero_flux
 #print axioms PorepyVerif.C12.tpfa_Mmatrix
+#print axioms PorepyVerif.C12.tpfa_thalf_pos_diagK
 #print axioms PorepyVerif.C12.tpfa_exact_Korth
 #print axioms PorepyVerif.C12.tpfa_exact_Korth_dirichlet
 #print axioms PorepyVerif.C12.tpfa_exact_neumann
